@@ -460,7 +460,7 @@ func TestVerifC05(t *testing.T) {
 		"json-bad-utf8":    "HTTP/1.1 200 OK\r\n" + ct + "\r\n{\"type\":\"\xff\xfeNote\"}",
 	}
 	// mutation-based garbage: byte flips, deletions, insertions and truncations of valid responses
-	nMut := c.Share(c.Pick(600, 6000))
+	nMut := c.Share(c.Pick(600, 60000))
 	mr := c.Rand(1<<20, 7)
 	for i := 0; i < nMut; i++ {
 		base := []byte(corpus[mr.Intn(len(corpus))].hops[0]("https://127.0.0.2:1/next").raw)
